@@ -37,6 +37,7 @@ type PropCfg struct {
 	Extra       []string   `json:"extra_checks,omitempty"`
 	CFB         bool       `json:"cfb,omitempty"`
 	OnlySel     bool       `json:"only_selected,omitempty"` // do not attempt obligations outside the selection
+	Level       string     `json:"level,omitempty"`
 	KindPass    bool       `json:"kind_pass,omitempty"`     // C12: wrap-around kind discipline over every function
 }
 
@@ -344,6 +345,14 @@ func cmdCheck(args []string) {
 		}
 		trusted["crypto/cipher.Block.Encrypt: uninterpreted permutation; crypto/subtle.XORBytes: byte-level semantics"] = true
 	}
+	if len(samples) == 0 {
+		// everything was closed during generation: still write a few actual cases out
+		for _, s := range slowest {
+			if len(samples) < 6 {
+				samples = append(samples, s)
+			}
+		}
+	}
 	sort.Slice(slowest, func(i, j int) bool { return slowest[i].Ms > slowest[j].Ms })
 	if len(slowest) > 5 {
 		slowest = slowest[:5]
@@ -468,7 +477,7 @@ func cmdCheck(args []string) {
 			"property_id": *prop,
 			"tier":        *tier,
 			"seed":        seed,
-			"level":       "proof",
+			"level":       evidenceLevel(pc),
 			"coverage": map[string]any{
 				"obligations":              total,
 				"discharged":               discharged,
@@ -502,6 +511,13 @@ func cmdCheck(args []string) {
 	fmt.Printf("property=%s tier=%s obligations=%d discharged=%d known=%d violations=%d wall=%.1fs\n",
 		*prop, *tier, total, discharged, len(knownHit), violations, time.Since(t0).Seconds())
 	os.Exit(exit)
+}
+
+func evidenceLevel(pc *PropCfg) string {
+	if pc.Level != "" {
+		return pc.Level
+	}
+	return "proof"
 }
 
 // capList: at most n entries plus a count of the rest.
